@@ -84,7 +84,9 @@ def strconfig_part(ctx):
         short = [w for w in words if len(w) <= 3]
         sp = {w[:i] for w in short for i in range(len(w))}
         long4 = [w for w in maximal if len(w) == 4]
-        maximal = [w for w in short if w not in sp] + random.Random(ctx.seed + 121).sample(long4, min(3000, len(long4)))
+        twice = [w for w in long4 if w[0][0] == "gwreconf" and w[1][0] in ("gwreconf", "chreconf")]   # a setting that is changed and changed back
+        rest = [w for w in long4 if not (w[0][0] == "gwreconf" and w[1][0] in ("gwreconf", "chreconf"))]
+        maximal = [w for w in short if w not in sp] + twice + random.Random(ctx.seed + 121).sample(rest, min(2500, len(rest)))
     res = gwrun.run_chanlife([[list(o) for o in w] for w in maximal], module="sim.strconfig")
     gwrun.close_pool()
     res = [x for x in res if "harness_hang" not in x]
